@@ -11,6 +11,7 @@ Not decided: aliasing of returned arrays through zero-stride views, per-object m
 import ast
 
 from sa import AnalysisError
+from sa.boolnf import equivalent
 from sa.pattern import pmatch, pfind
 from sa.astutil import dotted, src, stmt_text, params, find_stmts, calls_in, method_name, walk_no_nested, const, deep_resolved
 from sa.guards import enclosing_conditions, facts_at
@@ -23,25 +24,36 @@ def check_cache_protocol(model, rep):
         raise AnalysisError('compile(): the cache_const_intermediates branch was not found')
     br = ifs[0]
     txt = ' ; '.join(src(s) for s in br.body)
-    collect = [s for s in br.body if isinstance(s, ast.FunctionDef) and s.name == 'collect']
+    # Everything below is matched on structure and on what expressions denote (sa.pattern, resolved locals): the names of the nested helper, of loop
+    # variables and of temporaries, a lambda versus a local def, and positional versus keyword spelling of _pyast constructors do not matter.
+    walked = [c.args[0].id for c in calls_in(f.node) if src(c.func) == 'util.tree_walk' and c.args and isinstance(c.args[0], ast.Name)]
+    collect = [s for s in br.body if isinstance(s, ast.FunctionDef) and s.name in walked and len(s.args.args) == 1]
     ok = False
     if collect:
         c = collect[0]
+        P = c.args.args[0].arg
         i = [s for s in c.body if isinstance(s, ast.If)]
-        ok = len(i) == 1 and src(i[0].test).replace(' ', '') == 'isinstance(evaluable,Array)andevaluable.isconstant' and 'cache_evaluables.add(evaluable)' in src(i[0]) and \
-            any(isinstance(x, ast.Return) and src(x.value) == '()' for x in i[0].body) and 'rerun_evaluables.add(evaluable)' in src(i[0]) and 'evaluable_deps.get(evaluable, ())' in src(i[0])
+        ok = len(i) == 1 and equivalent(i[0].test, f'isinstance({P}, Array) and {P}.isconstant') and f'cache_evaluables.add({P})' in src(i[0]) and \
+            any(isinstance(x, ast.Return) and src(x.value) == '()' for x in i[0].body) and f'rerun_evaluables.add({P})' in src(i[0]) and f'evaluable_deps.get({P}, ())' in src(i[0])
     rep.ob('R03.2', f.key, f.where(collect[0]) if collect else f.where(br), ok, 'exactly the argument-free Array nodes reached from the outputs are cached; everything else is recomputed and recursed into' if ok else
            'the predicate `isinstance(e, Array) and e.isconstant` selecting what is cached across calls changed', statement='cache-predicate')
     cv = [s for s in br.body if isinstance(s, ast.Assign) and src(s.targets[0]) == 'cache_vars']
-    ok = len(cv) == 1 and src(cv[0].value).replace(' ', '').replace('((', '(').replace('))', ')') == 'tuple(cache[evaluable]forevaluableincache_evaluables)'
+    ok = len(cv) == 1 and (pmatch('tuple((cache[E_] for E_ in cache_evaluables))', cv[0].value) is not None or pmatch('tuple([cache[E_] for E_ in cache_evaluables])', cv[0].value) is not None)
     rep.ob('R03.2', f.key, f.where(cv[0]) if cv else f.where(br), ok, 'the cached variables are those of the cached evaluables', statement='cache-vars')
     # freeze loop
-    loops = [s for s in br.body if isinstance(s, ast.For) and src(s.iter) == 'cache_vars']
-    ok = len(loops) == 1 and any(isinstance(x, ast.Expr) and 'main.append(_pyast.Exec(' in src(x) and "get_attr('setflags').call(write=_pyast.LiteralBool(False))" in src(x) and src(loops[0].target) + '.get_attr' in src(x) for x in loops[0].body)
+    loops = [s for s in br.body if isinstance(s, ast.For) and src(s.iter) == 'cache_vars' and isinstance(s.target, ast.Name)]
+    ok = False
+    if len(loops) == 1:
+        V = loops[0].target.id
+        fnl = ast.FunctionDef(name='_', args=f.node.args, body=loops[0].body, decorator_list=[], lineno=loops[0].lineno, col_offset=0)
+        for x in loops[0].body:
+            if isinstance(x, ast.Expr) and pmatch(f"main.append(_pyast.Exec({V}.get_attr('setflags').call(write=_pyast.LiteralBool(False))))", deep_resolved(fnl, x.value)) is not None:
+                ok = True
     rep.ob('R03.2', f.key, f.where(loops[0]) if loops else f.where(br), ok, 'every cached variable is made read-only at the end of the first run' if ok else
            'cached intermediates are no longer frozen with setflags(write=False): writing into a returned array that is itself a cached constant changes later calls', statement='freeze-cached')
     # global declaration and first_run dispatch
-    ok = '_pyast.Global((first_run,) + cache_vars)' in txt and '_pyast.If(first_run, main, main_rerun)' in txt
+    ok = '_pyast.Global((first_run,) + cache_vars)' in txt and bool(pfind('_pyast.If(first_run, main, main_rerun)', br) or pfind('_pyast.If(first_run, main, else_body=main_rerun)', br) or
+                                                                     pfind('_pyast.If(first_run, body=main, else_body=main_rerun)', br))
     rep.ob('R03.2', f.key, f.where(br), ok, 'first_run and the cached variables are declared global and the body dispatches on first_run' if ok else
            'the global declaration of the cached variables or the first_run dispatch changed', statement='global-and-dispatch')
     reset = [s for s in br.body if isinstance(s, ast.Expr) and src(s.value).replace(' ', '') == 'main.append(_pyast.Assign(first_run,_pyast.LiteralBool(False)))']
@@ -49,13 +61,21 @@ def check_cache_protocol(model, rep):
     rep.ob('R03.2', f.key, f.where(reset[0]) if reset else f.where(br), ok, 'first_run is cleared after the freeze, at the end of the first-run body' if ok else
            'first_run is not cleared at the end of the first run: the cached intermediates are recomputed or the flag is cleared before they exist', statement='first-run-reset')
     fl = [s for s in br.body if isinstance(s, ast.Assign) and src(s.targets[0]) == 'main_rerun']
-    ok = len(fl) == 1 and 'main.filter(' in src(fl[0].value) and 'rerun_skip_blocks' in src(fl[0].value) and bool(loops) and fl[0].lineno < loops[0].lineno
+    # the predicate handed to main.filter: a lambda, or a local def of this branch
+    filters = []
+    for flt in [c for c in calls_in(f.node) if src(c.func) == 'main.filter' and c.args]:
+        a0 = flt.args[0]
+        if isinstance(a0, ast.Lambda):
+            filters.append(a0)
+        elif isinstance(a0, ast.Name):
+            filters += [d for d in ast.walk(f.node) if isinstance(d, ast.FunctionDef) and d.name == a0.id and d is not f.node]
+    ok = len(fl) == 1 and 'main.filter(' in src(fl[0].value) and bool(filters) and bool(loops) and fl[0].lineno < loops[0].lineno
     rep.ob('R03.2', f.key, f.where(fl[0]) if fl else f.where(br), ok, 'the rerun body is filtered from main before the freeze statements are appended' if ok else
            'main_rerun is derived after the freeze/reset statements were appended: reruns would re-freeze or clear state', statement='rerun-filter-order')
     # what the filter of the rerun body skips, in terms of the compile state (whatever the intermediate sets are called)
     ok = False
-    for flt in [c for c in calls_in(f.node) if src(c.func) == 'main.filter' and c.args and isinstance(c.args[0], ast.Lambda)]:
-        for cmp_ in [n for n in ast.walk(flt.args[0]) if isinstance(n, ast.Compare) and len(n.ops) == 1 and isinstance(n.ops[0], ast.In)]:
+    for flt in filters:
+        for cmp_ in [n for n in ast.walk(flt) if isinstance(n, ast.Compare) and len(n.ops) == 1 and isinstance(n.ops[0], ast.In)]:
             m = pmatch('util.IDSet(itertools.chain.from_iterable((evaluable_block_map[E_] for E_ in util.IDSet(evaluable_block_map) - rerun_evaluables)))',
                        deep_resolved(f.node, cmp_.comparators[0]))
             ok = ok or m is not None
